@@ -221,6 +221,29 @@ def alphabet_frames(rng, dev, stream, base_seq):
 TECMP_SAMPLE = bytes.fromhex("0012000103030002000000000000000700000000000000050009000000000123040102030401020300")
 
 
+def gen_huge_frames(tier, rng):
+    """Frames of 2 GiB + 8 bytes and more (the remaining size was once narrowed to `int`: such a frame decoded to nothing and left an
+    open reassembly of its endpoint pending).  The buffer is the given prefix followed by zeros; the prefix ends in a segmented message
+    (decoding stops there), preceded by 0..2 small unsegmented messages that must be delivered."""
+    cases = []
+    for n in ([2 ** 31 + 8, 2 ** 31 + 7 + 8] if tier == "quick" else [2 ** 31 + 8, 2 ** 31 + 9, 2 ** 32 + 8, 2 ** 32 + 24, 3 * 2 ** 30]):
+        for variant in ("orphan-last", "new-first"):
+            ver, dev, stream, mt = rng.randrange(1, 256), rng.getrandbits(16), rng.getrandbits(8), 1
+            seq = rng.getrandbits(16)
+            ts, idw = rng.getrandbits(64), rng.getrandbits(32)
+            first = proto.frame_header(ver, dev, mt, stream, seq) + proto.message(ts, idw, 0x04, 0x08, proto.rand_bytes(rng, 18))
+            front = b"".join(proto.message(rng.getrandbits(64), rng.getrandbits(32), 0, 0xFE, proto.rand_bytes(rng, rng.randrange(1, 9))) for _ in range(rng.randrange(0, 3)))
+            if variant == "orphan-last":
+                tail = proto.message(ts, idw, 0x0C, 0x08, proto.rand_bytes(rng, 6))        # wrong counter: rejected, reassembly released
+                hdr = proto.frame_header(ver, dev, mt, stream, (seq + 5) & 0xFFFF)
+            else:
+                tail = proto.message(ts + 1, idw, 0x04, 0x08, proto.rand_bytes(rng, 11))    # a new first segment replaces the open message
+                hdr = proto.frame_header(ver, dev, mt, stream, (seq + 9) & 0xFFFF)
+            ops = [feed(first), "dec d pending", "dec d feedhuge %d %s" % (n, (hdr + front + tail).hex()), "dec d pending"]
+            cases.append(Case("c17huge", ops, nontrivial=True, tags=("frame-of-2GiB-and-more", variant), meta={"noshrink": True}))
+    return cases
+
+
 def gen_c17(tier, rng):
     cases = []
     names = ["unseg", "first", "inter", "last", "invalid", "hdronly", "u+inter"]
@@ -268,6 +291,7 @@ def gen_c17(tier, rng):
                         fr = proto.frame_header(ver, ep[0], mt, ep[1], seq) + proto.message(rng.getrandbits(64), rng.getrandbits(32), flag, 0x08, proto.rand_bytes(rng, n))
                         ops += [feed(fr), "dec d pending"]
         cases.append(Case("c17", ops, nontrivial=True, tags=("orphan-matching-default-entry",)))
+    cases += gen_huge_frames(tier, rng)
     # the same histories answered by the LOW-LEVEL decoder model (DecoderLL.lean, proved to refine the model in Props/C17b.lean):
     # the harness treats feedll / pendingll as feed / pending, so this compares the transcription of decoder.cpp with the real decoder
     ll = []
@@ -1196,8 +1220,11 @@ def pred_c17(case, impl, model, ctx):
         if l.startswith("CRASH"):
             return False
         w = o.split(" ")
-        if w[0] == "dec" and w[2] in ("feed", "feedll"):
-            b = b"" if w[3] == "-" else bytes.fromhex(w[3])
+        if w[0] == "dec" and w[2] in ("feed", "feedll", "feedhuge"):
+            if w[2] == "feedhuge":
+                b = bytes.fromhex(w[4]) + bytes(min(int(w[3]) - len(w[4]) // 2, 64))      # the prefix ends in a segment: what follows it does not matter
+            else:
+                b = b"" if w[3] == "-" else bytes.fromhex(w[3])
             f = _parse_frame_for_spec(b)
             if f is None:
                 continue
